@@ -934,6 +934,13 @@ class Node:
         assert before is None
         if not self._children:
             raise ValueError("Need child nodes when `add_self=False`")
+        # Refuse before adding anything if a node would collide with a child
+        own_ids = {n._data_id for n in target.children}
+        for child in self.children:
+            if child._data_id in own_ids:
+                raise UniqueConstraintError(
+                    f"Node.data already exists in parent: {child}"
+                )
         res = None
         for child in self.children:
             n = target.add_child(child, before=None, deep=deep)
